@@ -388,6 +388,74 @@ FUNCS = [
 GLOBALS = [var("glob_z", TZ, zl(5)), var("glob_l", TL(TZ), lit(L(TZ, [Z(1), Z(2), Z(3)])))]
 
 
+# ------------------------------------------------------------------------------------------ ownership roles x consuming contexts
+LONG = "ein Text, der laenger als sechzehn Bytes ist"
+
+
+def _own_shapes():
+    """expressions that produce a Text in every ownership role: (name, expr); all are closed (no local variables)"""
+    P = lambda w: new("Paar", zahl=zl(3), wort=w)
+    return [
+        ("literal", lit(T(LONG))),
+        ("concat", bin_("cat", lit(T(LONG)), lit(T(" + angehaengt")))),
+        ("call", call("text_zurueck", [("t", lit(T(LONG)))])),
+        ("field-of-literal", {"k": "fld", "f": "wort", "e": P(lit(T(LONG)))}),
+        ("field-of-call", {"k": "fld", "f": "wort", "e": call("paar_zurueck", [("w", lit(T(LONG)))])}),
+        ("field-of-field", {"k": "fld", "f": "wort", "e": {"k": "fld", "f": "paar", "e": new("Kiste", inhalt=lit(L(TZ, [Z(1)])), paar=P(lit(T(LONG))), flag=lit(W(True)))}}),
+        ("element-of-literal", bin_("idx", {"k": "list", "et": TT, "vals": [lit(T("erstes Element der Liste")), lit(T(LONG))]}, zl(2))),
+        ("element-of-call", bin_("idx", call("liste_zurueck", [("n", zl(3))]), zl(2))),
+        ("slice-of-temp", ter("slice", bin_("cat", lit(T(LONG)), lit(T("!"))), zl(3), zl(30))),
+        ("cast", cast(TT, zl(1234567890123))),
+        ("falls", ter("falls", bin_("cat", lit(T(LONG)), lit(T("?"))), ident("glob_w"), call("text_zurueck", [("t", lit(T("nein")))]))),
+        ("global", ident("glob_t")),
+        ("field-of-global", {"k": "fld", "f": "wort", "e": ident("glob_p")}),
+        ("element-of-global", bin_("idx", ident("glob_lt"), zl(2))),
+    ]
+
+
+OWN_GLOBALS = GLOBALS + [var("glob_w", TW, lit(W(True))), var("glob_f", TW, lit(W(False))), var("glob_t", TT, lit(T("globaler Text, ebenfalls lang genug"))),
+                         var("glob_p", TS("Paar"), new("Paar", zahl=zl(9), wort=lit(T("Wort im globalen Paar, lang genug")))),
+                         var("glob_lt", TL(TT), lit(L(TT, [T("eins"), T("zweites Element, lang genug"), T("drei")])))]
+OWN_FUNCS = FUNCS + [fn("paar_zurueck", [("w", TT, False)], TS("Paar"), [RET(new("Paar", zahl=zl(1), wort=bin_("cat", ident("w"), lit(T("~")))))])] + \
+    [fn("form_%d" % i, [], TT, [RET(e)]) for i, (_, e) in enumerate(_own_shapes())] + \
+    [fn("form_frueh_%d" % i, [("n", TZ, False)], TT, [{"k": "for", "v": "i", "t": TZ, "from": zl(1), "to": zl(3), "step": NONE, "body": [if_(bin_("eq", ident("i"), ident("n")), [RET(e)])]}, RET(lit(T("nicht gefunden")))])
+     for i, (_, e) in enumerate(_own_shapes())]
+
+
+def ownership_cases(tier, rng):
+    """every producing shape x every consuming context (C05: every ownership role on every path; also run by C01 / C11)"""
+    cs = []
+    for i, (sn, e) in enumerate(_own_shapes()):
+        k = "own:%s:" % sn
+        cs.append(Case(k + "init", ident("ov"), TT, [var("ov", TT, e, False)]))
+        cs.append(Case(k + "assign", ident("ov"), TT, [var("ov", TT, lit(T("vorher, auch ein laengerer Text")), False), setv(lvid("ov"), e)]))
+        cs.append(Case(k + "argument", call("text_zurueck", [("t", e)]), TT))
+        cs.append(Case(k + "return", call("form_%d" % i, []), TT))
+        for n in (1, 3, 5):
+            cs.append(Case(k + "return-from-loop:%d" % n, call("form_frueh_%d" % i, [("n", zl(n))]), TT))
+        cs.append(Case(k + "print", e, TT))
+        cs.append(Case(k + "concat-left", bin_("cat", e, lit(T("|"))), TT))
+        cs.append(Case(k + "concat-right", bin_("cat", lit(T("|")), e), TT))
+        cs.append(Case(k + "equal", bin_("eq", e, e), TW))
+        cs.append(Case(k + "falls-taken", ter("falls", e, ident("glob_w"), lit(T("anderer Zweig"))), TT))
+        cs.append(Case(k + "falls-not-taken", ter("falls", lit(T("anderer Zweig")), ident("glob_w"), e), TT))
+        cs.append(Case(k + "falls-else-taken", ter("falls", lit(T("anderer Zweig")), ident("glob_f"), e), TT))
+        cs.append(Case(k + "falls-variable-other", ter("falls", e, ident("glob_w"), ident("glob_t")), TT))
+        cs.append(Case(k + "and-skipped", bin_("and", ident("glob_f"), bin_("eq", e, lit(T("x")))), TW))
+        cs.append(Case(k + "and-evaluated", bin_("and", ident("glob_w"), bin_("eq", e, lit(T("x")))), TW))
+        cs.append(Case(k + "or-skipped", bin_("or", ident("glob_w"), bin_("eq", e, lit(T("x")))), TW))
+        cs.append(Case(k + "length", un("len", e), TZ))
+        cs.append(Case(k + "index", bin_("idx", e, zl(2)), TC))
+        cs.append(Case(k + "for-each", ident("acc"), TT, acc_init() + [{"k": "foreach", "v": "c", "t": TC, "idx": "ix", "in": e, "body": [if_(bin_("gt", ident("ix"), zl(3)), [BRK]), acc_add(as_text(ident("c")))]}]))
+        cs.append(Case(k + "list-element", bin_("idx", {"k": "list", "et": TT, "vals": [e, lit(T("zweites"))]}, zl(1)), TT))
+        cs.append(Case(k + "struct-field", {"k": "fld", "f": "wort", "e": new("Paar", zahl=zl(1), wort=e)}, TT))
+        cs.append(Case(k + "discarded", zl(1), TZ, [{"k": "expr", "e": call("text_zurueck", [("t", e)])}]))
+        cs.append(Case(k + "variable-box", cast(TT, ident("ob")), TT, [var("ob", TV, cast(TV, e), False)]))
+        cs.append(Case(k + "in-loop-with-continue", ident("acc"), TT, acc_init() + [{"k": "for", "v": "j", "t": TZ, "from": zl(1), "to": zl(3), "step": NONE, "body": [
+            var("tmp", TT, e, False), if_(bin_("eq", ident("j"), zl(2)), [CONT]), acc_add(bin_("idx", ident("tmp"), ident("j")))]}]))
+    return cs
+
+
 def stmt_cases(tier, rng):
     cases = []
 
